@@ -237,7 +237,7 @@ def run(ctx):
 
     r = core.EngineResult("descent")
     wd = tlc.fresh_dir("descent_%s" % ctx.tier)
-    body = ("EXTENDS ProxGrad\nMCDs == {<<4, 1>>, <<2, 2>>, <<8, 1>>, <<4, 0>>, <<1, 8>>}\nMCCs == {<<a, b>> : a \\in {-3, 0, 2}, b \\in {-1, 0, 5}}\n"
+    body = ("EXTENDS ProxGrad\nMCDs == {<<4, 1>>, <<2, 2>>, <<8, 1>>, <<4, 0>>, <<1, 8>>, <<1, 1>>}\nMCCs == {<<a, b>> : a \\in {-3, 0, 2}, b \\in {-1, 0, 5}}\n"
             "MCLam == {R(1, 1), R(2, 1)}\nMCX0 == {<<0, 0>>, <<2, -1>>}\nMCLo == R(-1, 2)\nMCHi == R(2, 1)\n")
     cfg = ('INIT Init\nNEXT Next\nCONSTANTS\n Ds <- MCDs\n Cs <- MCCs\n Gkinds = {"none", "l1", "l2", "box"}\n LamVals <- MCLam\n X0s <- MCX0\n AlphaDivs = {1, 2}\n MaxIter = 3\n'
            ' BoxLo <- MCLo\n BoxHi <- MCHi\nINVARIANT XstarIsFixed\nINVARIANT EarlyStopOnlyAtFixedPoint\nPROPERTY ObjectiveNonIncreasing\nPROPERTY DistanceNonIncreasing\n')
